@@ -388,6 +388,12 @@ class Gen:
         which an inner level succeeds and an outer one fails afterwards."""
         rng = self.rng
         depth = rng.randint(2, 4)
+        # "forced" shape: two nested build_file levels that both fail (caught)
+        # inside a subbuild that then looks at the common directory
+        forced = not getattr(self, 'cache_dir_mode', None) and \
+            rng.random() < self.p.get('p_chain_family', 0.35) * 0.3
+        if forced:
+            depth = 3
         O = [o for o in self.antichain(U, depth + 2) if '/' in o]
         tries = 0
         while len(O) < depth + 2 and tries < 60:
@@ -399,13 +405,16 @@ class Gen:
                        o.startswith(cand + '/') for o in O):
                 O.append(cand)
         family = None
-        if not getattr(self, 'cache_dir_mode', None) and \
-                rng.random() < self.p.get('p_chain_family', 0.35):
+        if forced or (not getattr(self, 'cache_dir_mode', None) and
+                      rng.random() < self.p.get('p_chain_family', 0.35)):
             # all levels work in sibling directories below one common
             # directory (reference counts of shared ancestors: a failing
             # level must release exactly what it reserved)
             family = rng.choice(NAMES)
             self.families = getattr(self, 'families', []) + [family]
+            if forced:
+                self.forced_families = getattr(
+                    self, 'forced_families', []) + [family]
             avoid = getattr(self, 'cache_dir_mode', None) or ()
             subs_ = ['a', 'b', 'c', 'd', 'e', 'f']
             rng.shuffle(subs_)
@@ -422,6 +431,8 @@ class Gen:
         call = None             # statement that calls the level below
         for lvl in range(depth):
             kind = 'file' if (lvl == 0 or rng.random() < 0.65) else 'sub'
+            if forced:
+                kind = 'file' if lvl < 2 else 'sub'
             fid = ('F%d' if kind == 'file' else 'S%d') % idx
             idx += 1
             body = []
@@ -434,13 +445,17 @@ class Gen:
                              rng.choice(['METADATA', 'HASH']), True])
             for _ in range(rng.randint(0, 2)):
                 body.append(self.gen_query(U))
-            if family is not None and rng.random() < 0.6:
+            if family is not None and (rng.random() < 0.6 or
+                                       (forced and kind == 'sub')):
                 body.append(['q', rng.choice(['is_dir', 'exists', 'list_dir',
                                               'walk']), family])
             mode = rng.choice(['ok', 'ok', 'ok', 'raise_after',
                                'raise_after', 'raise_before', 'nowrite',
                                'unlink'] if kind == 'file' else
                               ['ok', 'ok', 'ok', 'raise_after'])
+            if forced:
+                mode = rng.choice(['raise_after', 'nowrite', 'unlink',
+                                   'raise_after']) if kind == 'file' else 'ok'
             if kind == 'file':
                 if mode == 'raise_before':
                     body.insert(0, ['raise', rng.choice(USER_EXC)])
@@ -452,7 +467,7 @@ class Gen:
                 body.append(['raise', rng.choice(USER_EXC)])
             funcs[fid] = {'kind': kind, 'name': self.func_name(fid),
                           'variants': [body]}
-            catch = rng.random() < 0.8
+            catch = forced or rng.random() < 0.8
             if kind == 'file':
                 if not paths:
                     paths = list(O)
@@ -717,15 +732,16 @@ class Gen:
             'steps': self.gen_steps(funcs, roots, groups, U),
         }
         fams = getattr(self, 'families', [])
-        if fams and rng.random() < 0.5:
+        ffams = getattr(self, 'forced_families', [])
+        if fams and (ffams or rng.random() < 0.65):
             # the common directory of a chain family exists before the first
             # build (it holds a foreign file) and is removed, with everything
             # in it, before a later build
-            fam = rng.choice(fams)
+            fam = rng.choice(ffams or fams)
             sc['init'].append(['write', fam + '/ff', 'foreign-in-family'])
             builds = [i for i, st in enumerate(sc['steps'])
                       if st['op'] == 'build']
-            if len(builds) >= 2 and rng.random() < 0.7:
+            if len(builds) >= 2 and (ffams or rng.random() < 0.7):
                 at = rng.choice(builds[1:])
                 sc['steps'].insert(at, {'op': 'mutate',
                                         'muts': [['rm', fam]]})
